@@ -64,7 +64,13 @@ func (c *Ctx) Attach(w *chain.World) {
 	for _, m := range c.Mons {
 		w.AddProbe(m)
 	}
+	if AttachHook != nil {
+		AttachHook(w)
+	}
 }
+
+// AttachHook, if set, is called for every world a scenario attaches (development aid).
+var AttachHook func(w *chain.World)
 
 // Require records a coverage floor: if cond is false the scenario is inconclusive.
 func (c *Ctx) Require(cond bool, what string) {
@@ -79,6 +85,9 @@ type Scenario struct {
 }
 
 var Scenarios = map[string]*Scenario{}
+
+// DebugHook, if set, is called after a scenario finished (development aid).
+var DebugHook func(c *Ctx)
 
 func Register(name string, f func(c *Ctx)) { Scenarios[name] = &Scenario{Name: name, Run: f} }
 
@@ -148,6 +157,9 @@ func RunJob(j Job) (res *Result) {
 		}()
 		sc.Run(c)
 	}()
+	if DebugHook != nil && c.World != nil {
+		DebugHook(c)
+	}
 	if res.Inconclusive == "" {
 		res.Inconclusive = c.Inconclusive
 	}
@@ -162,6 +174,10 @@ func RunJob(j Job) (res *Result) {
 			}
 		}
 		res.Blocks += w.Height
+		if w.Dead && len(w.Blocks) > 0 {
+			lb := w.Blocks[len(w.Blocks)-1]
+			c.Extra["dead"] = fmt.Sprintf("height %d: %s", lb.Height, lb.Err)
+		}
 		for k, v := range w.OkCount {
 			res.TxOK[k] += v
 		}
